@@ -289,6 +289,13 @@ func VfC04_Closure() {
 		src = "define void @" + a + "(i32 %x) !dbg !4 {\n" + l + ":\n" +
 			"\tcall void @llvm.dbg.value(metadata i32 %x, metadata !5, metadata !DIExpression()), !dbg !6\n" +
 			"\tbr label %done, !dbg !6\ndone:\n\tret void\n}\n" +
+			// a second function with the same local names and the same textual
+			// metadata operands: each resolves inside its own function
+			"define void @second(i32 %x) {\n" + l + ":\n" +
+			"\t%y = add i32 %x, 1\n" +
+			"\tcall void @llvm.dbg.value(metadata i32 %x, metadata !5, metadata !DIExpression()), !dbg !6\n" +
+			"\tcall void @llvm.dbg.value(metadata i32 %y, metadata !5, metadata !DIExpression()), !dbg !6\n" +
+			"\tret void\n}\n" +
 			"declare void @llvm.dbg.value(metadata, metadata, metadata)\n" +
 			"@gv = global i32 0, !dbg !9\n" +
 			"!llvm.dbg.cu = !{!0}\n!nm = !{!1, !2}\n" +
